@@ -26,6 +26,7 @@
 from __future__ import annotations
 
 import asyncio
+import functools
 import logging
 import struct
 from collections import defaultdict
@@ -68,6 +69,44 @@ GATT_SERVER_DEFAULT_MAX_MTU = 517
 # -----------------------------------------------------------------------------
 
 _T = TypeVar('_T')
+
+
+def _async_request_handler(func):
+    '''
+    Decorator for ATT request handlers that are coroutines: the handler runs in a
+    task, and if it raises, the request is answered with an Error Response (a request
+    that is left without any response makes the client time out).
+    '''
+
+    @functools.wraps(func)
+    def wrapper(self: Server, bearer: att.Bearer, request: att.ATT_PDU) -> None:
+        async def run() -> None:
+            try:
+                await func(self, bearer, request)
+            except att.ATT_Error as error:
+                logger.debug(f'normal exception returned by handler: {error}')
+                self.send_response(
+                    bearer,
+                    att.ATT_Error_Response(
+                        request_opcode_in_error=request.op_code,
+                        attribute_handle_in_error=error.att_handle,
+                        error_code=error.error_code,
+                    ),
+                )
+            except Exception:
+                logger.exception(color("!!! Exception in handler:", "red"))
+                self.send_response(
+                    bearer,
+                    att.ATT_Error_Response(
+                        request_opcode_in_error=request.op_code,
+                        attribute_handle_in_error=0x0000,
+                        error_code=att.ATT_UNLIKELY_ERROR_ERROR,
+                    ),
+                )
+
+        utils.AsyncRunner.spawn(run())
+
+    return wrapper
 
 
 def _bearer_id(bearer: att.Bearer) -> str:
@@ -734,7 +773,7 @@ class Server(utils.EventEmitter):
 
         self.send_response(bearer, response)
 
-    @utils.AsyncRunner.run_in_task()
+    @_async_request_handler
     async def on_att_find_by_type_value_request(
         self, bearer: att.Bearer, request: att.ATT_Find_By_Type_Value_Request
     ):
@@ -790,7 +829,7 @@ class Server(utils.EventEmitter):
 
         self.send_response(bearer, response)
 
-    @utils.AsyncRunner.run_in_task()
+    @_async_request_handler
     async def on_att_read_by_type_request(
         self, bearer: att.Bearer, request: att.ATT_Read_By_Type_Request
     ):
@@ -870,7 +909,7 @@ class Server(utils.EventEmitter):
 
         self.send_response(bearer, response)
 
-    @utils.AsyncRunner.run_in_task()
+    @_async_request_handler
     async def on_att_read_request(
         self, bearer: att.Bearer, request: att.ATT_Read_Request
     ):
@@ -899,7 +938,7 @@ class Server(utils.EventEmitter):
             )
         self.send_response(bearer, response)
 
-    @utils.AsyncRunner.run_in_task()
+    @_async_request_handler
     async def on_att_read_blob_request(
         self, bearer: att.Bearer, request: att.ATT_Read_Blob_Request
     ):
@@ -947,7 +986,7 @@ class Server(utils.EventEmitter):
             )
         self.send_response(bearer, response)
 
-    @utils.AsyncRunner.run_in_task()
+    @_async_request_handler
     async def on_att_read_by_group_type_request(
         self, bearer: att.Bearer, request: att.ATT_Read_By_Group_Type_Request
     ):
@@ -1018,7 +1057,7 @@ class Server(utils.EventEmitter):
 
         self.send_response(bearer, response)
 
-    @utils.AsyncRunner.run_in_task()
+    @_async_request_handler
     async def on_att_read_multiple_request(
         self, bearer: att.Bearer, request: att.ATT_Read_Multiple_Request
     ):
@@ -1060,7 +1099,7 @@ class Server(utils.EventEmitter):
         response = att.ATT_Read_Multiple_Response(set_of_values=b''.join(values))
         self.send_response(bearer, response)
 
-    @utils.AsyncRunner.run_in_task()
+    @_async_request_handler
     async def on_att_read_multiple_variable_request(
         self, bearer: att.Bearer, request: att.ATT_Read_Multiple_Variable_Request
     ):
@@ -1106,7 +1145,7 @@ class Server(utils.EventEmitter):
         )
         self.send_response(bearer, response)
 
-    @utils.AsyncRunner.run_in_task()
+    @_async_request_handler
     async def on_att_write_request(
         self, bearer: att.Bearer, request: att.ATT_Write_Request
     ):
